@@ -110,6 +110,13 @@ def runDial (p : Params) (t : List String) (implObs : String) : String × List S
      | _ => [])
   (modelObs, viol, tags)
 
+/-- What the policy model assumes about package `torrent`: `Accept` gets
+`Config.ForceIncomingEncryption`; the outgoing handshaker gets `Config.DisableOutgoingEncryption`
+(negated into `enableEncryption` by the handshaker, checked by the `via=hs` cases) and
+`Config.ForceOutgoingEncryption`. -/
+def wiringExpected : String :=
+  "incoming.force=ForceIncomingEncryption outgoing.disable,force=DisableOutgoingEncryption,ForceOutgoingEncryption"
+
 def suite : Suite where
   name := "policy"
   runCase ops :=
@@ -121,6 +128,7 @@ def suite : Suite where
         | some "params" => (parseParams o.1 o.2, (o.2, []) :: acc, tags)
         | some "accept" => let (m, v, tg) := runAccept p t o.2; (p, (m, v) :: acc, tags ++ tg)
         | some "dial" => let (m, v, tg) := runDial p t o.2; (p, (m, v) :: acc, tags ++ tg)
+        | some "wiring" => (p, (wiringExpected, []) :: acc, tags ++ ["branch:wiring"])
         | _ => (p, ("unknown-op", []) :: acc, tags))
       (({} : Params), [], [])
     (acc.reverse, tags.eraseDups)
